@@ -585,8 +585,20 @@ def job_spectral(cfg):
                       "_spectral.Tangent", "IsotropicHardening.Linear", "Yield.VonMises / Hill"}
     res.stubs.add("Newton loop of _spectral.Solve: loop-carried theta havoc'd after the first pass (fresh theta* >= 0, the clamp `np.maximum(., 0)` is thereby assumed), exit condition recorded from the real convergence test")
 
+    late = cfg.get("late", False)
+    E_final, v_final = (float(el.E), float(el.v)) if late else (None, None)
+    if late:
+        label += " (elastic moduli assigned after the behavior was built)"
+
     def mk(Hv, solver="auto"):
-        return Behavior(dim, el, yieldSurface=make_surface(surf), hardening=IsotropicHardening.Linear(Hv), solver=solver)
+        if late:
+            # the behavior is built around a softer law; the user then assigns the final moduli to the SAME elastic model (public parameters):
+            # every later Integrate must be the one of the current law, as for a freshly built behavior (the oracles below use the final C)
+            el.E, el.v = 70.0, 0.3
+        b_ = Behavior(dim, el, yieldSurface=make_surface(surf), hardening=IsotropicHardening.Linear(Hv), solver=solver)
+        if late:
+            el.E, el.v = E_final, v_final
+        return b_
 
     def to6(e):
         e6 = np.zeros(6, dtype=object if np.asarray(e).dtype == object else float)
@@ -1167,6 +1179,7 @@ def main():
     for mode in ["3D", "pstrain"]:
         for side in (-1, 1):
             configs.append({"kind": "spectral", "law": "iso", "mode": mode, "surface": "vm", "side": side})
+    configs.append({"kind": "spectral", "law": "iso", "mode": "3D", "surface": "vm", "side": 1, "late": True})
     if tier == "thorough":
         configs.append({"kind": "spectral", "law": "iso", "mode": "3D", "surface": "hill", "side": 1})
         configs.append({"kind": "spectral", "law": "iso", "mode": "pstrain", "surface": "hill", "side": -1})
